@@ -21,11 +21,11 @@ func forge(kind string, ev *sim.Event, s *sim.Session, rng *rand.Rand) []byte {
 	// "padbyte:<extra>:<k>": <extra> more value bytes (so that every pad length occurs), the k-th pad byte
 	// (mod the pad length) wrong, everything else - AuthCode included - right
 	extra, padAt := 0, -1
-	if strings.HasPrefix(kind, "padbyte:") {
+	if strings.HasPrefix(kind, "padbyte:") || strings.HasPrefix(kind, "padmulti:") {
 		w := strings.Split(kind, ":")
 		extra, _ = strconv.Atoi(w[1])
 		padAt, _ = strconv.Atoi(w[2])
-		kind = "padbyte"
+		kind = w[0]
 	}
 	// "padlong:<N>": a correctly signed reply whose confidentiality pad is 01 02 .. N followed by the pad length N with
 	// N > 16 - every pad byte right, the length beyond what IPMI v2.0 13.29 allows (15)
@@ -86,7 +86,7 @@ func forge(kind string, ev *sim.Event, s *sim.Session, rng *rand.Rand) []byte {
 		plain = append(plain, uint8(padLong))
 		sim.EncryptAESRaw(s.K2, plain)
 		return sim.WrapRaw(0xC0, s.ConsoleID, seq, plain, s.Integ, s.K1)
-	case "badpad", "padover", "padzero", "padbyte":
+	case "badpad", "padover", "padzero", "padbyte", "padmulti":
 		// needs the keys: correctly signed, confidentiality pad malformed
 		n := (16 - (len(msg)+1)%16) % 16
 		plain := append([]byte{}, iv...)
@@ -113,6 +113,21 @@ func forge(kind string, ev *sim.Event, s *sim.Session, rng *rand.Rand) []byte {
 				plain[len(plain)-2] = 0x5a // a one-byte pad that is not 01
 			} else {
 				plain[len(plain)-1-n+padAt%n] ^= 0x20
+			}
+		case "padmulti":
+			// several pad bytes wrong at once, chosen so that naive accumulations of the differences cancel: two bytes with
+			// bit 7 flipped, four with bit 6, eight with bit 5, all sixteen with bit 4 (as many as the pad holds)
+			k := []int{2, 4, 8, 16}[padAt%4]
+			bit := []byte{0x80, 0x40, 0x20, 0x10}[padAt%4]
+			if n < k {
+				k, bit = n-n%2, 0x80
+			}
+			if k == 0 {
+				plain[len(plain)-1] = 1
+				plain[len(plain)-2] = 0x5a
+			}
+			for i := 0; i < k; i++ {
+				plain[len(plain)-1-n+i] ^= bit
 			}
 		case "padover":
 			plain[len(plain)-1] = uint8(17 + rng.Intn(239))
